@@ -72,3 +72,16 @@ PROPS["C11"] = dict(
     trusted_base=["modelled, not verified: strings.TrimSpace/TrimLeft/TrimRight (as dw/de on code points, unicode.IsSpace set transcribed), net/url path decoding (input to the model)"],
     assumptions=["paths are valid UTF-8 for the theorems' closed form; invalid bytes are passed through as pseudo code points in the tie"],
 )
+
+PROPS["C08"] = dict(
+    n=dict(quick=4000, thorough=60000),
+    consts=[],
+    theorems=["C08_log", "C08_one_commit", "C08_status", "C08_empty"],
+    rule="case = (short-write script of the underlying writer, chain of 1..4 handlers each with writer ops before/after Next): ops drawn from "
+         "SetStatus(-1,0,1xx..5xx), SetHeader, Write, Flush, http.Error, http.Redirect(POST), snapshot; executed through Router.ServeHTTP against a "
+         "recording ResponseWriter+Flusher. Observed: the underlying call log and StatusCode()/Length() snapshots. Non-trivial = distinct case with a "
+         "status setting and a committing op.",
+    exhaustive_note="thorough additionally enumerates all op sequences of length <= 4 over the 7-op alphabet {st 404, st 0, st 201, write, flush, http.Error, snapshot} with a 1-byte short write first",
+    trusted_base=["modelled, not verified: net/http http.Error (= WriteHeader + one Write of msg+newline) and http.Redirect on a non-GET request (= Location header + WriteHeader); headers are not part of this property's projection"],
+    assumptions=["handlers reach the writer through c.Resp / c.SetStatus (not through RawWriter())", "the chain ends normally (panics are C09's subject)"],
+)
